@@ -57,6 +57,14 @@ CLAIMED = {
             "through the real code; TLC evaluates grid, displacement (injective matching), pairing, overlap, non-note "
             "retention and the survival clause on each observation.",
             "Bounded scope; the displacement clause is decided by an earliest-feasible greedy matching per event class.", "6 (C05)"),
+    "C06": ("NoteLengths", "TLC model check of NoteLengths.tla (per-note requantise/remove system, ties open) + its initial "
+            "states and seeded random inputs run through the real quantise_note_lengths + TLC trace validation",
+            "TLC checks on every generated input x 7 value lists x extension on/off that the reference design meets the "
+            "acceptor (allowed duration, onset/pitch/channel/velocity fixed, fits before the next note of the same channel "
+            "and pitch, closest fit, removed iff nothing fits, non-note events untouched) and never lets a kept note collide "
+            "with a later one; the same triples and random inputs of up to 12 notes go through the real code and TLC "
+            "evaluates every clause on the observed views.",
+            "Bounded scope; notes are matched by (channel, pitch, onset), unique for well-formed input.", "6 (C06)"),
 }
 PENDING = {}
 props = [json.loads(l) for l in open(V / "properties.jsonl")]
